@@ -649,13 +649,15 @@ class Norm:
             catch = ("_", "$", "v1::None", "Option::None")
             if p2 in catch and p1 not in catch:
                 return self._iflet(p1, scr, b1, b2)
-            if p1 in catch and p2 not in catch:
+            if p1 in ("v1::None", "Option::None") and p2 not in catch:
                 return self._iflet(p2, scr, b2, b1)
         if len(arms) >= 2 and all(g is None for _p, g, _b in arms) and arms[0][2][0] == "call" and arms[0][2][1] in ("Some", "Ok") and len(arms[0][2][2]) == 1 \
                 and all(b[0] == "call" and b[1] == arms[0][2][1] and len(b[2]) == 1 for _p, _g, b in arms):
             # match x { A => Some(a), B => Some(b) }  ==  Some(match x { A => a, B => b })
             return ("call", arms[0][2][1], [self._canon_match(scr, [(p, g, b[2][0]) for p, g, b in arms])])
-        if all(g is None for _p, g, _b in arms) and any(b == ("lit", False) for _p, _g, b in arms) \
+        order_free = all(g is None for _p, g, _b in arms) and all(a[0] not in ("_", "$") for a in arms[:-1]) \
+            and _arms_disjoint([a[0] for a in arms if a[0] not in ("_", "$")])
+        if order_free and any(b == ("lit", False) for _p, _g, b in arms) \
                 and all(b == ("lit", False) for p, _g, b in arms if p in ("_", "$")):
             # boolean match: the disjunction of its non-false arms
             alts = []
@@ -667,11 +669,10 @@ class Norm:
             for x in alts[1:]:
                 r = ("op", "||", [r, x])
             return r
-        if all(g is None for _p, g, _b in arms):
+        if order_free:
             last = [a for a in arms if a[0] in ("_", "$")]
             rest = [a for a in arms if a[0] not in ("_", "$")]
-            if len(last) <= 1:
-                arms = sorted(rest, key=lambda a: a[0]) + last
+            arms = sorted(rest, key=lambda a: a[0]) + last
         return ("match", scr, arms)
 
     def _iflet(self, pat, scr, then, els):
@@ -1501,6 +1502,95 @@ def _has_loop_exit(body):
             continue
         stack.extend(children(n))
     return False
+
+
+def _pat_parse(s):
+    """pattern string (pat_repr) -> tree: ('wild',) | ('alt', [trees]) | ('node', head, [children]) ; None when not understood"""
+    def split_top(t, sep):
+        parts, depth, cur = [], 0, []
+        i = 0
+        while i < len(t):
+            ch = t[i]
+            if ch == "'":
+                j = t.find("'", i + 1)
+                j = len(t) - 1 if j < 0 else j
+                cur.append(t[i:j + 1])
+                i = j + 1
+                continue
+            if ch in "([{":
+                depth += 1
+            elif ch in ")]}":
+                depth -= 1
+            if ch == sep and depth == 0:
+                parts.append("".join(cur))
+                cur = []
+            else:
+                cur.append(ch)
+            i += 1
+        parts.append("".join(cur))
+        return parts
+    s = s.strip()
+    alts = split_top(s, "|")
+    if len(alts) > 1:
+        ts = [_pat_parse(a) for a in alts]
+        return None if any(t is None for t in ts) else ("alt", ts)
+    if s in ("_", "$", ".."):
+        return ("wild",)
+    if s.startswith("$@"):
+        return _pat_parse(s[2:])
+    if " if .." in s:
+        return None
+    for o, c in (("(", ")"), ("{", "}"), ("[", "]")):
+        i = s.find(o)
+        if i >= 0 and s.endswith(c) and not any(x in s[:i] for x in "([{"):
+            head = s[:i] + o
+            inner = s[i + 1:-1]
+            kids = []
+            if inner:
+                for part in split_top(inner, ","):
+                    if o == "{" and ":" in part:
+                        fname, _sep, sub = part.partition(":")
+                        t = _pat_parse(sub)
+                        kids.append(None if t is None else ("node", "." + fname, [t]))
+                    else:
+                        kids.append(_pat_parse(part))
+            if any(k is None for k in kids):
+                return None
+            if o == "[" and any(k == ("wild",) and p.strip() == ".." for k, p in zip(kids, split_top(inner, ","))):
+                return None          # slice patterns with a rest: not analysed
+            return ("node", head, kids)
+    return ("node", s, [])
+
+
+def _pat_overlap(a, b):
+    """may some value match both patterns? (conservative: True when unsure)"""
+    if a is None or b is None:
+        return True
+    if a[0] == "wild" or b[0] == "wild":
+        return True
+    if a[0] == "alt":
+        return any(_pat_overlap(x, b) for x in a[1])
+    if b[0] == "alt":
+        return any(_pat_overlap(a, x) for x in b[1])
+    if a[1] != b[1]:
+        return False
+    if a[1].endswith("{"):
+        fa = {k[1]: k[2][0] for k in a[2]}
+        fb = {k[1]: k[2][0] for k in b[2]}
+        return all(_pat_overlap(fa[f], fb[f]) for f in fa if f in fb)
+    if len(a[2]) != len(b[2]):
+        return not a[1].endswith("[")       # different arity: only slices of different length are certainly disjoint
+    return all(_pat_overlap(x, y) for x, y in zip(a[2], b[2]))
+
+
+def _arms_disjoint(pats):
+    """the given arm patterns (catch-all excluded by the caller) are pairwise disjoint: their order does not matter"""
+    trees = [_pat_parse(p) for p in pats]
+    for i in range(len(trees)):
+        for j in range(i + 1, len(trees)):
+            if _pat_overlap(trees[i], trees[j]):
+                return False
+    return True
 
 
 def _expand_bool_tuple_arms(scr, arms):
